@@ -243,7 +243,7 @@ func TestWorker(t *testing.T) {
 		// thorough: for a sample of programs enumerate the fault position over
 		// (a stride of) every storage event index of the fault-free run
 		enumerated := false
-		if job.Thorough && len(job.Seeds) == 0 && (job.Prop == "C04" || job.Prop == "C08") && seed%4 == 0 && len(enumQueue) == 0 && !enumDone[seed] {
+		if job.Thorough && len(job.Seeds) == 0 && (job.Prop == "C04" || job.Prop == "C08" || job.Prop == "C09" || job.Prop == "C11") && seed%4 == 0 && len(enumQueue) == 0 && !enumDone[seed] {
 			enumDone[seed] = true
 			enumQueue = append(enumQueue, enumerate(t, c, wo)...)
 		}
@@ -811,7 +811,7 @@ func enumerate(t *testing.T, c *Case, wo *WorkerOut) []*Case {
 	for k := 1; k <= n; k += stride {
 		cc := base.Clone()
 		f := &simdisk.Fault{Nth: k, Epoch: 0, Img: c.Seed*7919 + uint64(k)}
-		if c.Prop == "C04" {
+		if c.Prop == "C04" || c.Prop == "C11" && c.Seed%8 == 0 {
 			f.Kind = "crash"
 			f.After = k%2 == 0
 		} else {
